@@ -124,3 +124,16 @@ M2[:] = [
   '\nvar (\n\tlookupMu     sync.Mutex\n\tcachedLookup map[string]int\n)\n', '"strings"\n', '"strings"\n\t"sync"\n'),
 ]
 main2()
+
+# ---- library-internal goroutines
+M2[:] = [
+ ('ok-parallel-matrix-expand', '', 'dilithium/polyvec.go',
+  '\tfor i := 0; i < K; i++ {\n\t\tfor j := 0; j < L; j++ {\n\t\t\tif err := polyUniform(&mat[i].vec[j], rho, (uint16(i)<<8)+uint16(j)); err != nil {\n\t\t\t\treturn err\n\t\t\t}\n\t\t}\n\t}\n\treturn nil\n}\n\nfunc polyVecLChkNorm',
+  '\tvar wg sync.WaitGroup\n\tvar errs [K]error\n\tfor i := 0; i < K; i++ {\n\t\twg.Add(1)\n\t\tgo func(i int) {\n\t\t\tdefer wg.Done()\n\t\t\tfor j := 0; j < L; j++ {\n\t\t\t\tif err := polyUniform(&mat[i].vec[j], rho, (uint16(i)<<8)+uint16(j)); err != nil {\n\t\t\t\t\terrs[i] = err\n\t\t\t\t\treturn\n\t\t\t\t}\n\t\t\t}\n\t\t}(i)\n\t}\n\twg.Wait()\n\tfor _, err := range errs {\n\t\tif err != nil {\n\t\t\treturn err\n\t\t}\n\t}\n\treturn nil\n}\n\nfunc polyVecLChkNorm',
+  '', 'package dilithium\n', 'package dilithium\n\nimport "sync"\n'),
+ ('c15-parallel-matrix-expand-loopvar', 'C15', 'dilithium/polyvec.go',
+  '\tfor i := 0; i < K; i++ {\n\t\tfor j := 0; j < L; j++ {\n\t\t\tif err := polyUniform(&mat[i].vec[j], rho, (uint16(i)<<8)+uint16(j)); err != nil {\n\t\t\t\treturn err\n\t\t\t}\n\t\t}\n\t}\n\treturn nil\n}\n\nfunc polyVecLChkNorm',
+  '\tvar wg sync.WaitGroup\n\tvar firstErr error\n\tfor i := 0; i < K; i += 2 {\n\t\tif i+2 < K { // the last pair is cheap enough not to wait for\n\t\t\twg.Add(1)\n\t\t}\n\t\tgo func(lo int) {\n\t\t\tif lo+2 < K {\n\t\t\t\tdefer wg.Done()\n\t\t\t}\n\t\t\tfor r := lo; r < lo+2; r++ {\n\t\t\t\tfor j := 0; j < L; j++ {\n\t\t\t\t\tif err := polyUniform(&mat[r].vec[j], rho, (uint16(r)<<8)+uint16(j)); err != nil {\n\t\t\t\t\t\tfirstErr = err\n\t\t\t\t\t}\n\t\t\t\t}\n\t\t\t}\n\t\t}(i)\n\t}\n\twg.Wait()\n\treturn firstErr\n}\n\nfunc polyVecLChkNorm',
+  '', 'package dilithium\n', 'package dilithium\n\nimport "sync"\n'),
+]
+main2()
